@@ -165,11 +165,11 @@ def h_clean(m, ctx, nlines, menu_name, fixed=None, history='build-clean', le_cho
 # ----------------------------------------------------------------------------- C08 hermetic / C09 needed
 
 def h_hermetic(m, ctx, nlines, menu_name, fixed=None, pre_out_len=None, pre_temp_len=None, mode_a='Build', mode_b='Build',
-               clean_b=True, pre_domain=ANYBYTE, le_choices=(b'\n',), norewrite=False, final_newline=None):
+               clean_b=True, pre_domain=ANYBYTE, le_choices=(b'\n',), norewrite=False, final_newline=None, inc_len=2):
     """run A from a symbolic pre-state of the generated paths, run B from a clean tree (clean_b) or the same pre-state;
     verdicts and final generated files must agree; optional no-rewrite monitor (C09)"""
     source, desc, se, pre_out, pre_temp, data = world(m, ctx, nlines, menu_name, fixed, pre_out_len, pre_temp_len, pre_domain,
-                                                      le_choices=le_choices, final_newline=final_newline)
+                                                      le_choices=le_choices, final_newline=final_newline, inc_len=inc_len)
     it1, env1, r1 = run_mode(m, ctx, se, source, mode_a, pre_out, pre_temp)
     out1, tmp1 = env1.read_file(OUT), env1.read_file(TMP)
     se.replaying = 0
@@ -246,6 +246,7 @@ def h_faults(m, ctx, nlines, menu_name, mode, fixed=None, faults=1, pre_uptodate
              trailing=True):
     source, desc, se, _, _, data = world(m, ctx, nlines, menu_name, fixed, None, None, le_choices=le_choices,
                                          final_newline=True if big_include else None)
+    se.signals = True          # commands may also die by a signal (no exit code at all)
     if big_include:
         # an included file larger than the writer's buffer: its chunk reaches the file in one direct write
         se.inc_content = tuple([120] * big_include) + (10,)
